@@ -8,6 +8,7 @@ package main
 import (
 	"bufio"
 	"context"
+	"encoding/json"
 	"flag"
 	"fmt"
 	"math/rand"
@@ -137,9 +138,9 @@ func (e *emitter) emit(cs caseSpec) {
 		return false
 	}())
 	w := e.w
-	fmt.Fprintf(w, "(case %d %s (text %s) %s (doc %s) %s (usetz %v) (tz %d) (unordered %v) %s (runs",
+	fmt.Fprintf(w, "(case %d %s (text %s) %s (doc %s) %s (usetz %v) (tz %d) (unordered %v) %s (replay %s) (runs",
 		e.id, cs.family, qs(cs.text), pathDump, jsonS(cs.doc), varsS(cs.vars), cs.useTZ, cs.tzOff, unordered,
-		regexTable(p.AST, cs.doc, cs.vars))
+		regexTable(p.AST, cs.doc, cs.vars), qs(replayLine(cs)))
 
 	snapshot := jsonS(cs.doc) + varsS(cs.vars)
 	oneRun := func(silent bool, k int, cause error) int {
@@ -203,6 +204,10 @@ func main() {
 	e := &emitter{w: w, families: map[string]int{}}
 	g := &gen{r: rand.New(rand.NewSource(*seed))}
 	for _, fam := range strings.Split(*family, ",") {
+		if strings.HasPrefix(fam, "file:") {
+			famFile(e, strings.TrimPrefix(fam, "file:"))
+			continue
+		}
 		fn, ok := families[fam]
 		if !ok {
 			fmt.Fprintf(os.Stderr, "unknown family %q\n", fam)
@@ -211,4 +216,53 @@ func main() {
 		fn(g, e, *n)
 	}
 	fmt.Fprintf(os.Stderr, "emitted %d cases (%d unparsable skipped): %v\n", e.id, e.skipped, e.families)
+}
+
+// replayLine renders the inputs of a case as a corpus line (see famFile).
+func replayLine(cs caseSpec) string {
+	number := hasNumber(cs.doc)
+	for _, v := range cs.vars {
+		number = number || hasNumber(v)
+	}
+	fc := fileCase{Family: cs.family, Text: cs.text, Number: number, UseTZ: cs.useTZ, TZ: cs.tzOff, Cancel: cs.cancel}
+	if b, err := json.Marshal(cs.doc); err == nil {
+		fc.Doc = string(b)
+	}
+	for k, v := range cs.vars {
+		if z, ok := v.(int64); ok {
+			if fc.Int64Vars == nil {
+				fc.Int64Vars = map[string]int64{}
+			}
+			fc.Int64Vars[k] = z
+			continue
+		}
+		if fc.Vars == nil {
+			fc.Vars = map[string]string{}
+		}
+		if b, err := json.Marshal(v); err == nil {
+			fc.Vars[k] = string(b)
+		}
+	}
+	b, _ := json.Marshal(fc)
+	return string(b)
+}
+
+func hasNumber(v any) bool {
+	switch v := v.(type) {
+	case json.Number:
+		return true
+	case []any:
+		for _, e := range v {
+			if hasNumber(e) {
+				return true
+			}
+		}
+	case map[string]any:
+		for _, e := range v {
+			if hasNumber(e) {
+				return true
+			}
+		}
+	}
+	return false
 }
